@@ -772,31 +772,18 @@ Proof.
   - rewrite !count_occ_cons_neq; auto. intros H'. injection H' as H1 H2. apply exp1_inj in H1. apply exp0_inj in H2. congruence.
 Qed.
 
-(* ------------------------------------------------------------------ REFUTED clause: remove_empty_paths in node mode *)
-(* get_solution(remove_empty_paths=True) of kFlowDecomp / kLeastAbsErrors / kMinPathError with
-   flow_attr_origin="node" filters the CONDENSED paths with len(path) > 1.  An internal path
-   [v.0, v.1] is a genuine (non-empty) route through the single node v carrying weight w; it is
-   condensed to [v] and then dropped together with its weight. *)
+(* ------------------------------------------------------------------ remove_empty in node mode: OLD behaviour refuted, CURRENT behaviour proved *)
+(* Before /repo 7b35658 get_solution(remove_empty=True) filtered the CONDENSED paths with len(path) > 1: an
+   internal path [v.0, v.1] is a genuine route through the single node v carrying weight w; it was condensed
+   to [v] and then dropped together with its weight. *)
 Definition ne_G1 : ne_ingraph := [{| ne_nm := "a"; ne_at := [("flow", 5%Z)]; ne_preds := []; ne_succs := [] |}].
 
-Theorem remove_empty_drops_single_node_refuted :
+Theorem remove_empty_old_drops_single_node_refuted :
   exists G gsrc gsnk internal weights,
-    (* the internal route is the expansion of a one-node route of G with weight 5 ... *)
     internal = map ne_expand_path [["a"]] /\ weights = [5%Z] /\
-    ne_node_solution G gsrc gsnk internal weights false = NE_Ok [(["a"], 5%Z)] /\
-    (* ... and remove_empty_paths=True loses it *)
-    ne_node_solution G gsrc gsnk internal weights true = NE_Ok [].
+    ne_node_solution_old G gsrc gsnk internal weights false = NE_Ok [(["a"], 5%Z)] /\
+    ne_node_solution_old G gsrc gsnk internal weights true = NE_Ok [].
 Proof. exists ne_G1, "source1", "sink1", [["a.0"; "a.1"]], [5%Z]. vm_compute. repeat split. Qed.
-
-(* what the filter should look at: the INTERNAL path is empty iff it has no expanded node *)
-Theorem remove_empty_on_internal_keeps_single_node G gsrc gsnk v w :
-  ne_is_node G v = true -> v <> gsrc -> v <> gsnk ->
-  ne_bind (ne_condense_paths G gsrc gsnk (map fst (ne_remove_empty [([ne_exp0 v; ne_exp1 v], w)])))
-          (fun ps => NE_Ok (combine ps [w])) = NE_Ok [([v], w)].
-Proof.
-  intros Hn H1 H2. cbn [ne_remove_empty filter fst List.length Nat.ltb Nat.leb map].
-  unfold ne_condense_paths. cbn [ne_mapM]. rewrite condense_expand_single_node by auto. reflexivity.
-Qed.
 
 (* ------------------------------------------------------------------ packaged statements for Props/C11.v *)
 Theorem exp_names_spec :
@@ -813,31 +800,59 @@ Theorem cons_edges_trailing_node G c x u v :
   last x ("", "") = (ne_exp0 v, ne_exp1 v).
 Proof. intros H Hne Hl. destruct (cons_edges_roundtrip G c x H) as [_ [_ [H3 _]]]. eauto. Qed.
 
-(* the full clause about remove_empty_paths (false of the code as it is, see the _refuted theorem):
-   a route whose INTERNAL path is non-empty survives get_solution(remove_empty_paths=True) *)
-Definition remove_empty_keeps_routes_statement : Prop :=
+(* the clause about remove_empty: a route whose INTERNAL path is non-empty survives
+   get_solution(remove_empty=True).  Stated for either version of the glue code. *)
+Definition remove_empty_keeps_routes_statement
+           (node_solution : ne_ingraph -> string -> string -> list (list string) -> list Z -> bool -> ne_res (list (list string * Z))) : Prop :=
   forall G gsrc gsnk (p : list string) (w : Z),
     p <> [] -> (forall v, In v p -> ne_is_node G v = true /\ v <> gsrc /\ v <> gsnk) ->
-    ne_node_solution G gsrc gsnk [ne_expand_path p] [w] true = NE_Ok [(p, w)].
+    node_solution G gsrc gsnk [ne_expand_path p] [w] true = NE_Ok [(p, w)].
 
-Theorem remove_empty_keeps_routes_refuted : ~ remove_empty_keeps_routes_statement.
+Theorem remove_empty_old_keeps_routes_refuted : ~ remove_empty_keeps_routes_statement ne_node_solution_old.
 Proof.
   intros H. specialize (H ne_G1 "source1" "sink1" ["a"] 5%Z).
-  assert (X : ne_node_solution ne_G1 "source1" "sink1" [ne_expand_path ["a"]] [5%Z] true = NE_Ok []) by (vm_compute; reflexivity).
+  assert (X : ne_node_solution_old ne_G1 "source1" "sink1" [ne_expand_path ["a"]] [5%Z] true = NE_Ok []) by (vm_compute; reflexivity).
   rewrite X in H. assert (Y : @NE_Ok (list (list string * Z)) [] = NE_Ok [(["a"], 5%Z)]).
   { apply H; [discriminate|]. intros v [<-|[]]. vm_compute. repeat split; discriminate. }
   discriminate.
 Qed.
 
-(* ... and it does hold for every route that visits at least two nodes *)
-Theorem remove_empty_keeps_long_routes G gsrc gsnk p w :
-  2 <= List.length p -> (forall v, In v p -> ne_is_node G v = true /\ v <> gsrc /\ v <> gsnk) ->
-  ne_node_solution G gsrc gsnk [ne_expand_path p] [w] true = NE_Ok [(p, w)].
+(* the code as it is now satisfies the clause, single-node routes included *)
+Theorem remove_empty_keeps_routes : remove_empty_keeps_routes_statement ne_node_solution.
 Proof.
-  intros Hl Hp. unfold ne_node_solution. change [ne_expand_path p] with (map ne_expand_path [p]).
+  intros G gsrc gsnk p w Hne Hp. unfold ne_node_solution. change [ne_expand_path p] with (map ne_expand_path [p]).
   rewrite condense_paths_expand.
-  - cbn [ne_bind combine ne_remove_empty filter fst]. destruct p as [|a [|b r]]; cbn in Hl; try lia. reflexivity.
+  - cbn [ne_bind combine map ne_remove_empty filter fst snd]. destruct p as [|a r]; [congruence|]. reflexivity.
   - intros q v [<-|[]] Hv. now apply Hp.
+Qed.
+
+(* without the flag nothing is filtered; with it, exactly the routes with an empty internal path go *)
+Lemma proj_combine3 (ps : list (list string)) : forall ws,
+  map (fun x : list string * list string * Z => (fst (fst x), snd x)) (combine (combine ps (map ne_expand_path ps)) ws) = combine ps ws.
+Proof. induction ps as [|p ps IH]; intros [|w ws]; cbn; auto. now rewrite IH. Qed.
+Lemma proj_filter3 (ps : list (list string)) : forall ws,
+  map (fun x : list string * list string * Z => (fst (fst x), snd x)) (ne_remove_empty (combine (combine ps (map ne_expand_path ps)) ws)) =
+  filter (fun pw : list string * Z => negb (Nat.eqb (List.length (fst pw)) 0)) (combine ps ws).
+Proof.
+  unfold ne_remove_empty.
+  induction ps as [|p ps IH]; intros [|w ws]; cbn [map combine filter]; auto.
+  specialize (IH ws). cbn [fst snd].
+  destruct p as [|a r].
+  - exact IH.
+  - change (ne_expand_path (a :: r)) with (ne_exp0 a :: ne_exp1 a :: ne_expand_path r).
+    cbn [List.length Nat.ltb Nat.leb Nat.eqb negb map fst snd]. f_equal. exact IH.
+Qed.
+Theorem node_solution_no_filter G gsrc gsnk ps ws :
+  (forall p v, In p ps -> In v p -> ne_is_node G v = true /\ v <> gsrc /\ v <> gsnk) ->
+  ne_node_solution G gsrc gsnk (map ne_expand_path ps) ws false = NE_Ok (combine ps ws).
+Proof.
+  intros Hp. unfold ne_node_solution. rewrite condense_paths_expand by exact Hp. cbn [ne_bind]. now rewrite proj_combine3.
+Qed.
+Theorem node_solution_filter G gsrc gsnk ps ws :
+  (forall p v, In p ps -> In v p -> ne_is_node G v = true /\ v <> gsrc /\ v <> gsnk) ->
+  ne_node_solution G gsrc gsnk (map ne_expand_path ps) ws true = NE_Ok (filter (fun pw => negb (Nat.eqb (List.length (fst pw)) 0)) (combine ps ws)).
+Proof.
+  intros Hp. unfold ne_node_solution. rewrite condense_paths_expand by exact Hp. cbn [ne_bind]. now rewrite proj_filter3.
 Qed.
 
 (* ------------------------------------------------------------------ node set under well-formedness *)
